@@ -16,6 +16,7 @@ import (
 type violation struct {
 	sig  string
 	what string
+	acct int
 }
 
 // checkSnapshot evaluates every state clause of the property. limitsAfterRun says
@@ -23,7 +24,8 @@ type violation struct {
 // re-established by a run).
 func (r *rig) checkSnapshot(s *Snap, limitsAfterRun bool) []violation {
 	var out []violation
-	fail := func(sig, format string, a ...any) { out = append(out, violation{sig, fmt.Sprintf(format, a...)}) }
+	curAcct := -1
+	fail := func(sig, format string, a ...any) { out = append(out, violation{sig, fmt.Sprintf(format, a...), curAcct}) }
 	raw := s.raw
 	cfg := r.pool.VerifC19Config()
 	idx := map[common.InternalAddress]int{}
@@ -106,6 +108,7 @@ func (r *rig) checkSnapshot(s *Snap, limitsAfterRun bool) []violation {
 			continue
 		}
 		hasPending[l.Addr] = true
+		curAcct = idx[l.Addr]
 		for i, t := range l.Txs {
 			if t.Nonce() != sn+uint64(i) {
 				if i == 0 {
@@ -130,6 +133,7 @@ func (r *rig) checkSnapshot(s *Snap, limitsAfterRun bool) []violation {
 			fail("pnonce:not-last-plus-one", "account %d: pendingNonces=%d, last pending nonce %d", idx[l.Addr], pn, last)
 		}
 	}
+	curAcct = -1
 	for a, i := range idx {
 		if !hasPending[a] && raw.PendingNonce[i] != raw.StateNonce[i] {
 			fail("pnonce:not-state-nonce-when-empty", "account %d has no pending transaction, pendingNonces=%d, state nonce %d", i, raw.PendingNonce[i], raw.StateNonce[i])
